@@ -485,6 +485,19 @@ class Interp:
                             env.pop(n.id, None)
         return env
 
+    def _real_method(self, recv, name: str):
+        """The method `name` of the real class a stand-in plays (stand-in classes may declare `_plays = "Reaction"`),
+        if that method is private (a helper) and not a property."""
+        plays = getattr(type(recv), "_plays", None) or getattr(type(recv), "_real", None)
+        if not isinstance(plays, str) or not plays or not name.startswith("_") or name.startswith("__"):
+            return None
+        try:
+            ci = self.prog.cls(plays)
+        except Exception:  # noqa: BLE001
+            return None
+        ms = [m for m in self.prog.find_method(ci, name) if m.prop_kind is None]
+        return ms[0] if ms else None
+
     def call_value(self, target, args, kwargs, ev, node):
         """Call a FuncRef / PartialRef / Closure value."""
         if isinstance(target, PartialRef):
@@ -785,7 +798,12 @@ class Interp:
                 try:
                     target = getattr(recv, f.attr)
                 except AttributeError:
-                    raise Unknown(f"method {f.attr} of {type(recv).__name__} is not modelled")
+                    # a helper method the real class was factored into: evaluate it on the stand-in
+                    real = self._real_method(recv, f.attr)
+                    if real is None:
+                        raise Unknown(f"method {f.attr} of {type(recv).__name__} is not modelled")
+                    args, kwargs = self.args_of(ev, c)
+                    return self.call(real, args, kwargs, selfobj=recv)
                 args, kwargs = self.args_of(ev, c)
                 if getattr(target, "_takes_callbacks", False):
                     # a stand-in method that calls back into evaluated code (DictList.query(lambda r: ...))
